@@ -779,7 +779,10 @@ def _prepare_results(results, data, debug):
     if debug:
         results = pd.DataFrame({**data, **results})
     else:
-        results = pd.DataFrame(results)
+        # Pass the index explicitly so that results which do not depend on any data
+        # column (scalars) are broadcast even if no other target is requested.
+        n_rows = len(next(iter(data.values())))
+        results = pd.DataFrame(results, index=pd.RangeIndex(n_rows))
     results = _reorder_columns(results)
 
     return results
